@@ -58,7 +58,7 @@ def two_hot_encoding(bins: jnp.ndarray, x: jnp.ndarray) -> jnp.ndarray:
         exactly at one of the bin edges, only one non-zero value is present.
     """
     diff = x[:, jnp.newaxis] - bins[jnp.newaxis]
-    diff = diff - 1e8 * (jnp.sign(diff) - 1)
+    diff = jnp.where(diff > 0, diff, jnp.inf)
     ind_lo = jnp.argmin(diff, 1, keepdims=False)
     ind_up = jnp.clip(ind_lo + 1, 0, bins.shape[0] - 1)
 
